@@ -138,7 +138,7 @@ CASES += [
     {"name": "requested temperature written into the stored dictionaries (the repaired defect)", "kind": "mutant", "rule": "C09-H", "edits": [
         (S, "            prms = dict(prms)\n            if temperature is not None:", "            if temperature is not None:", 1)]},
     {"name": "value-defined density keeps the caller's parameter list (the repaired defect)", "kind": "mutant", "rule": "C09-H", "edits": [
-        (S, "                self.params = [dict(p) for p in params]", "                self.params = params", 1)]},
+        (S, "                self.params = []\n                self.lamb = 0.0\n                for p in plist:", "                self.params = params\n                self.lamb = 0.0\n                for p in plist:", 1)]},
     {"name": "stored dictionaries copied with the copy method", "kind": "twin", "edits": [
         (S, "            prms = dict(prms)\n            if temperature is not None:", "            prms = prms.copy()\n            if temperature is not None:", 1)]},
 ]
